@@ -475,7 +475,7 @@ def run(ctx):
     from cryptography.hazmat.primitives.asymmetric import rsa
     import time as _time
     _t0 = _time.time()
-    ok, log = ctx.prove()
+    ok, log = ctx.prove(extra_targets=["model/C13Cases.vo"])
     _t1 = _time.time()
     rng = ctx.rng
 
@@ -505,9 +505,11 @@ def run(ctx):
             add("CJson %s %s" % (c_pv(v), c_res(r, c_str)), ("json", repr(v)[:80]))
 
         # ---- A2. the SHA-256 of model/C13Sha256.v (used by the Examples of props/C13.v) vs hashlib
-        sha_msgs = [bytes(rng.randrange(256) for _ in range(n)) for n in list(range(0, 131)) + [191, 192, 193, 500]]
+        sha_lens = (list(range(0, 131)) + [191, 192, 193, 500]) if not ctx.quick else \
+            [0, 1, 2, 3, 31, 54, 55, 56, 57, 62, 63, 64, 65, 100, 118, 119, 120, 121, 127, 128, 129, 200]
+        sha_msgs = [bytes(rng.randrange(256) for _ in range(n)) for n in sha_lens]
         sha_msgs += [ref_canonical(RFC7638_EXAMPLE), ref_canonical(RFC8037_A3)]
-        sha_msgs += [bytes(rng.randrange(256) for _ in range(rng.randrange(0, 300))) for _ in range(ctx.scale(40, 2000))]
+        sha_msgs += [bytes(rng.randrange(256) for _ in range(rng.randrange(0, 300))) for _ in range(ctx.scale(15, 2000))]
         for m in sha_msgs:
             ctx.note_case(("sha256", m))
             dist["sha256"] += 1
@@ -590,6 +592,7 @@ def run(ctx):
                                       {"fn": "key", "jwk": j, "variant": {"repr": "literal"}, "want": want})
 
         keys_for_sets = []
+        rsa_budget = {True: ctx.scale(1, 6), False: ctx.scale(2, 6)}
 
         def check_key(label, native, v):
             """one key in one representation: thumbprint vs the reference, kid flow, exports"""
@@ -624,7 +627,10 @@ def run(ctx):
                     ("dict_value", label, v))
             elif v["repr"] in ("native", "native-pub", "bytes"):
                 e = call(K.binding.convert_raw_key_to_dict, K.raw_value, K.is_private)
-                add("CExport %s %s" % (c_native(K.raw_value), c_res(e, c_dict)), ("export", label, v))
+                # the integer codec model divides bit by bit: few RSA exports (2048-bit numbers) per run
+                rsa_budget[K.is_private] -= (kty == "RSA")
+                if kty != "RSA" or rsa_budget[K.is_private] >= 0:
+                    add("CExport %s %s" % (c_native(K.raw_value), c_res(e, c_dict)), ("export", label, v))
                 if e[0] == "ok":
                     add("CMkDict %s %s %s %s" % (c_N(ci), c_dict(e[1]), c_opt(v.get("opts"), c_dict), c_dict(dv)),
                         ("dict_value", label, v))
@@ -667,13 +673,12 @@ def run(ctx):
             K.ensure_kid()
             exports = []
             for private, params in ((None, {}), (False, {}), (True, {}), (None, {"use": "sig"}), (False, {"alg": "x", "zz": "1"})):
-                if rng.random() < 0.5 and private is not False:
-                    continue
                 dvk = dict(K.dict_value)
                 ex = call(K.as_dict, private, **params)
-                add("CAsDict %s %s %s %s %s %s" % (c_N(ci), c_bool(K.is_private), c_dict(dvk),
-                                                   c_opt(private, c_bool), c_dict(params), c_res(ex, c_dict)),
-                    ("as_dict", label, v, private, params))
+                if rng.random() < (0.3 if ctx.quick else 0.6):
+                    add("CAsDict %s %s %s %s %s %s" % (c_N(ci), c_bool(K.is_private), c_dict(dvk),
+                                                       c_opt(private, c_bool), c_dict(params), c_res(ex, c_dict)),
+                        ("as_dict", label, v, private, params))
                 if ex[0] == "ok":
                     if not params:
                         exports.append((private, ex[1]))
@@ -708,11 +713,15 @@ def run(ctx):
         for label, native in materials:
             dist["keys"] += 1
             kty = kty_of(native)
-            n = ctx.scale(3, 10) if kty != "RSA" else ctx.scale(9, 30)
-            if "short" in label or label.startswith("rfc") or label.startswith("fixture:"):
-                n = ctx.scale(6, 12)
+            n = ctx.scale(3, 10)
+            if "short" in label or label.startswith("rfc"):
+                n = ctx.scale(5, 12)
+            if label.startswith("fixture:"):
+                n = ctx.scale(2 if kty == "RSA" else 3, 10)
             if kty == "oct":
                 n = ctx.scale(2, 6)
+            if label.startswith("rsa-"):
+                n = ctx.scale(7, 30)
             for v in gen_variants(rng, native, n):
                 check_key(label, native, v)
             # CSpec: the Coq Spec printer against the reference text
@@ -784,7 +793,9 @@ def run(ctx):
         else:
             ctx.violation({"kind": "generate-raises", "kty": "RSA"}, "RSAKey.generate_key raised %r" % (r[1],), {"fn": "generate", "kty": "RSA"})
 
-        pool = [m[1] for m in materials if not m[0].startswith("oct-") or rng.random() < 0.15] + keys_for_sets
+        pool = [m[1] for m in materials if (not m[0].startswith("oct-") or rng.random() < 0.15)
+                and (kty_of(m[1]) != "RSA" or rng.random() < (0.3 if ctx.quick else 1.0))] + \
+               [k for k in keys_for_sets if kty_of(k) != "RSA"]
         for _ in range(ctx.scale(60, 1500)):
             natives = [rng.choice(pool) for _ in range(rng.randrange(1, 6))]
             vs = []
@@ -868,7 +879,7 @@ def run(ctx):
 
     # ---- correspondence: model (vm_compute) vs recorded implementation behaviour
     ev = lib.CoqEval(["From Model Require Import Base PyVal B64 IntCodec TableTypes C13Json C13Thumb C13Sha256 C13Cases."],
-                     "c13case", "c13_check", "c13_show", shard=150, max_chars=150000)
+                     "c13case", "c13_check", "c13_show", shard=80, max_chars=100000)
     _t2 = _time.time()
     res = ev.run(cases, jobs=12)
     if any((not err.strip()) or "TIMEOUT" in err for _, err in res["errors"]):
@@ -877,6 +888,13 @@ def run(ctx):
         res = ev.run(cases, jobs=4)
     ctx.notes.append("wall: prove %.1fs, implementation runs %.1fs, case evaluation %.1fs (%d cases, %d chars)" % (
         _t1 - _t0, _t2 - _t1, _time.time() - _t2, len(cases), sum(len(c) for c in cases)))
+    _kinds = {}
+    for c, m in zip(cases, meta):
+        k = c.split(" ", 1)[0]
+        a = _kinds.setdefault(k, [0, 0])
+        a[0] += 1
+        a[1] += len(c)
+    ctx.coverage["case_kinds"] = {k: {"cases": a[0], "chars": a[1]} for k, a in sorted(_kinds.items())}
     ctx.coverage["traces_validated_against_impl"] = res["evaluated"]
     ctx.coverage["disagreements_checked"] = len(res["failing"])
     direct = len(ctx.violations)
